@@ -470,4 +470,63 @@ example : (unheld.run unheldOps).ctx.heap.get 2 = none := by
   rcases hk' with rfl | rfl | rfl | rfl | rfl | rfl | rfl | rfl | rfl | rfl | rfl | rfl <;>
     exact not_weakHeldA_of_noWeakTo (by decide)
 
+private theorem not_weakHeldA_of_shape {b : Arena} (hroot : b.root = [some (.strong 0)])
+    (htemps : b.temps.all (fun p => p == Ptr.strong 0 || p == Ptr.weak 1) = true)
+    (h0 : (b.ctx.heap.get 0).map (·.slots) = some [none, some (.weak 1)]) : ¬ WeakHeldA b 2 := by
+  have ht : ∀ p, p ∈ b.temps → p = Ptr.strong 0 ∨ p = Ptr.weak 1 := by
+    intro p hp
+    have := List.all_eq_true.mp htemps p hp
+    simpa using this
+  have acc : ∀ j, Accessible b j → j = 0 := by
+    intro j hj
+    induction hj with
+    | root t ht' => rw [hroot] at ht'; simpa using ht'
+    | temp t ht' => rcases ht _ ht' with h | h <;> cases h; rfl
+    | edge i t _ e ih =>
+      subst ih
+      obtain ⟨o, ho, hs⟩ := e
+      rw [ho] at h0
+      simp only [Option.map_some, Option.some.injEq] at h0
+      rw [h0] at hs; simp at hs
+  rintro (hw | hw | ⟨j, oj, hj, hoj, hs⟩)
+  · rw [hroot] at hw; simp at hw
+  · rcases ht _ hw with h | h <;> cases h
+  · have := acc j hj
+    subst this
+    rw [hoj] at h0
+    simp only [Option.map_some, Option.some.injEq] at h0
+    rw [h0] at hs; simp at hs
+
+/-- After `weakChain`: two callbacks that read their way to the weak pointer to X but never upgrade
+    it, around an incremental cycle. -/
+def peekOnly : List Op := [
+  .enter .mutate, .readRoot 0, .read 0 1, .leave,
+  .collect .finishMarking .sweep none none,
+  .enter .mutate, .readRoot 0, .read 0 1, .leave,
+  .collect .finishCycle .drop none none ]
+
+/-- **`shell_release_while_unheld`, non-degenerate.**  In `weakChain` a weak pointer to the shell 2
+    *exists* (in X, object 1) and the shell is `Nameable` (root → 0 ⇢ 1 ⇢ 2), so neither
+    `shell_release_run` nor the `noWeakTo` check applies (`noWeakTo` is false in the first ten
+    states); but X is never reachable through `Gc` pointers — the callbacks of `peekOnly` hold only
+    `Gc 0` and `GcWeak 1` — so the premise holds in all eleven states and the shell is released when
+    the cycle completes (contrast `reviveHolder` / `viaFinalizer`, where it survives). -/
+example :
+    (((Arena.new 1).run weakChain).run peekOnly).ctx.heap.get 2 = none ∧
+    Event.freed 2 ∈ (((Arena.new 1).run weakChain).run peekOnly).ctx.log ∧
+    ((Arena.new 1).run weakChain).noWeakTo 2 = false ∧
+    (((Arena.new 1).run weakChain).run (peekOnly.take 9)).noWeakTo 2 = false := by
+  have key := shell_release_while_unheld 1 weakChain 2 ⟨.white, true, false, []⟩ peekOnly (by decide)
+    (by decide) (by decide) rfl
+  have hP : ∀ k, k ≤ peekOnly.length →
+      ¬ WeakHeldA (((Arena.new 1).run weakChain).run (peekOnly.take k)) 2 := by
+    intro k hk
+    have hk' : k = 0 ∨ k = 1 ∨ k = 2 ∨ k = 3 ∨ k = 4 ∨ k = 5 ∨ k = 6 ∨ k = 7 ∨ k = 8 ∨ k = 9 ∨ k = 10 := by
+      simp [peekOnly] at hk; omega
+    rcases hk' with rfl | rfl | rfl | rfl | rfl | rfl | rfl | rfl | rfl | rfl | rfl <;>
+      exact not_weakHeldA_of_shape (by decide) (by decide) (by decide)
+  obtain ⟨h1, h2⟩ := key hP (by decide)
+    ⟨['Z', 'e', 'x', 'x', 'x', 'S', 'b', 'b', 'g', 'r', 'W'], by decide, by decide⟩
+  exact ⟨h1, h2, by decide, by decide⟩
+
 end GcArena.C02
